@@ -18,9 +18,10 @@ Verdict(o) ==
   LET cs == CaseOfObs(o)
       generated == o.ci >= 1 /\ o.ci <= Len(Cases)
       (* the harness echoes the case; it must be the case TLC generated *)
-      echoOk == IF cs.kind = "raw" THEN o.ci = 0
+      (* ci = 0: a byte-mutated neighbour made by the harness; its denotation is computed here *)
+      echoOk == IF o.ci = 0 THEN cs.kind = "raw"
                 ELSE generated /\ Cases[o.ci].id = o.cs.id /\ CaseId(cs) = o.cs.id /\ Cases[o.ci].den.text = o.cs.text
-      d == IF cs.kind = "raw" THEN Denote(cs) ELSE Cases[o.ci].den
+      d == IF o.ci = 0 THEN Denote(cs) ELSE Cases[o.ci].den
       checks == IF ~echoOk THEN << Chk("case", "malformed") >>
                 ELSE IF o.aspect \notin AspectsOf(cs.kind) THEN << Chk("aspect", "malformed") >>
                 ELSE ChecksOf(o, cs, d)
